@@ -34,7 +34,7 @@ def r_fold(ctx, chk):
     ht = body.blocks[head]['term']
     hname = cname(prog, ht) if ht['k'] == 'call' else None
     recv_ty = ht['args'][0]['place']['ty'] if ht['k'] == 'call' and ht['args'] else ''
-    ok = bool(hname) and hname.endswith('::next') and 'Chars' in recv_ty
+    ok = bool(hname) and hname.endswith('::next') and ('Chars' in recv_ty or 'CharIndices' in recv_ty)
     chk.instance('R-FOLD', 'Parser::feed', 'loop iterates the characters', ok, detail='head calls %s on %s' % (hname, recv_ty), span=ht['span'],
                  what='the loop of Parser::feed is not an iteration over a character iterator (%s on %s)' % (hname, recv_ty))
     # the iterator comes from data.chars()
@@ -45,7 +45,7 @@ def r_fold(ctx, chk):
             continue
         n = cname(prog, t) or '?'
         outside_calls.append(n)
-        if n.endswith('<impl str>::chars'):
+        if n.endswith('<impl str>::chars') or n.endswith('<impl str>::char_indices'):
             src_ok = True
     # outside the loop only effect-free library calls are allowed: nothing of this crate (state
     # machine, listener, helpers with `self`), no coroutine resumption, no lock
@@ -74,6 +74,24 @@ def r_fold(ctx, chk):
                         uses_data.append(bi)
     chk.instance('R-FOLD', 'Parser::feed', 'no state change outside the loop', not stores, detail='stores through self outside the loop: %s' % stores,
                  span=body.span, what='Parser::feed writes parser state outside its per-character loop (blocks %s)' % stores)
+    if uses_data:
+        # the body may take `&data[i..i + c.len_utf8()]` for the (i, c) the iterator just produced: that
+        # is the current character again, not the rest of the chunk.  Decided by the engine (every such
+        # index it saw at that line was recognised as the slice of one character at its own offset)
+        pr_ = ctx.parser_run()
+        evs_ = [ev for (st_, ret_) in (pr_['results'].get(PFEED) or []) for ev in st_.event_list()]
+        evs_ += [ev for sg in pr_.get('segments', []) if sg['func'] == PFEED for ev in sg['st'].event_list()]
+        cs = {ev[2] for ev in evs_ if ev[0] == 'char-slice' and ev[1] == PFEED}
+        plain_ix = {ev[2] for ev in evs_ if ev[0] == 'str.index' and ev[1] == PFEED}
+        still = []
+        for bi in uses_data:
+            t_ = body.blocks[bi]['term']
+            nm = cname(prog, t_) if t_['k'] == 'call' else ''
+            line = t_['span'].get('line') if t_['k'] == 'call' else None
+            if nm and 'Index<' in nm and '::index' in nm and line in cs and line not in plain_ix:
+                continue
+            still.append(bi)
+        uses_data = still
     chk.instance('R-FOLD', 'Parser::feed', 'loop body does not re-read data', not uses_data, detail='blocks %s' % uses_data, span=body.span,
                  what='the loop body of Parser::feed looks at the whole chunk again (blocks %s): the result could depend on the chunking' % uses_data)
     # empty chunk: zero iterations -> nothing happens (follows from the three clauses above)
@@ -375,6 +393,7 @@ def run_c11(ctx, chk):
     # D4: panic-freedom of the byte parser (same obligations as C01)
     from .rules_c01 import panic_obligations
     pr = ctx.parser_run()
-    n = panic_obligations(chk, 'C11', pr['engine'], only_funcs=set(BYTE_FNS))
+    # (the byte parser's entry points and whatever private helpers of its module they were split into)
+    n = panic_obligations(chk, 'C11', pr['engine'], only_funcs=set(BYTE_FNS) | {f_ for f_ in ctx.prog.bodies if f_.startswith('byte_parser::')})
     chk.floor('byte parser panic obligations', n, 1)
     chk.trust('encoding_rs streaming Decoder contract (A-LIB): WHATWG UTF-8 decoding incl. maximal-subpart replacement')
